@@ -24,7 +24,7 @@ RULE = (
     "helper, then a sentinel 'dodir /sentinel' through the real __ebd_ipc_cmd (has_version/best_version through their real "
     "eapi/0/phase.bash wrappers; 'script' sessions run the real helpers/common/pkgcore-ipc-helper with the real helper "
     "script instead), ending with 'phases succeeded'. The Python peer is a real EbuildProcessor object bound to the "
-    "harness pipes whose real generic_handler dispatches to the 24 real ebd_ipc helper instances (fake op: FakePkg EAPI 8, "
+    "harness pipes whose real generic_handler dispatches to the 24 real ebd_ipc helper instances (fake op: FakePkg EAPI 8 (EAPI 5 for the unpack absolute-path variants), "
     "image dir/T/DISTDIR on tmpfs, recording observer); an IpcError leaving generic_handler is answered exactly as "
     "run_generic_phase does (ebd.write(e.ret), then the shutdown handshake reads the channel). Enumerated: every helper x "
     "request variant (valid, second valid shape, missing source / no argument, directory without -r, unknown option, "
@@ -46,10 +46,10 @@ ASSUMPTIONS = [
     "filesystem placement details beyond 'the requested entry exists at the destination the request named' belong to C33",
 ]
 BOUNDS = {
-    "quick": "24 helpers (+6 of them again through the real pkgcore-ipc-helper + helper script): 594 fault-free sessions "
+    "quick": "24 helpers (+6 of them again through the real pkgcore-ipc-helper + helper script): 614 fault-free sessions "
     "(request under test incl. image states found in place and obstructed recursive/symlink installs, valid follow-up(s) "
     "to the same helper where it keeps installer state, sentinel) + one EIO on every helper filesystem event of the "
-    "request under test of each of them (2206 fault points); ~5.7 k requests answered",
+    "request under test of each of them (2242 fault points); ~5.8 k requests answered",
     "thorough": "same sessions + EACCES on every event + every pair k1<k2 of EIO faults",
 }
 
@@ -80,7 +80,7 @@ RECURSIVE = {
 }
 IGNORES_INSOPTIONS = {"dobin", "dosbin"}  # Dobin.parse_install_options replaces the caller's insoptions
 OPTMODES = ("absent", "octal", "mux", "bogus")
-FILE_OPT = {"octal": "-m0644", "mux": "-m u+x", "bogus": "--bogus"}
+FILE_OPT = {"octal": "-m0644", "mux": "-m u+x", "bogus": "--bogus", "notarget": "-T"}
 DIR_OPT = {"octal": "-m0750", "mux": "-m u+x", "bogus": "--bogus"}
 SCRIPT_HELPERS = ("doins", "dodoc", "doexe", "dodir", "keepdir", "dosym")
 
@@ -118,6 +118,10 @@ def variants_of(helper):
             out.append(("recursive-obstructed", "absent"))
         if helper in RECURSIVE or helper == "doexe":
             out.append(("symlink-obstructed", "mux"))
+        if helper in ("doexe", "doinfo", "dolib.a"):
+            # several targets through the external fallback (-T is unknown to the native option parser), one of them
+            # (a directory) rejected by `install`: sorting before resp. after the target that installs fine
+            out += [("fallback-dir-first", "notarget"), ("fallback-dir-last", "notarget")]
     elif helper in ("dodir", "keepdir"):
         for om in OPTMODES:
             out.append(("valid", om))
@@ -133,6 +137,8 @@ def variants_of(helper):
         out = [("valid", "absent"), ("absent-pkg", "absent"), ("bad-atom", "absent"), ("no-args", "absent"), ("valid-r", "absent")]
     elif helper == "unpack":
         out = [("valid", "absent"), ("missing", "absent"), ("empty-file", "absent"), ("unrecognized", "absent"), ("corrupt", "absent")]
+        # the same errors for names without an archive suffix; an absolute path where the EAPI forbids it
+        out += [("missing-nosuffix", "absent"), ("empty-nosuffix", "absent"), ("absolute-eapi5", "absent"), ("absolute-tar-eapi5", "absent")]
     elif helper == "eapply":
         out = [("valid", "absent"), ("missing", "absent"), ("does-not-apply", "absent"), ("dir", "absent"), ("empty-dir", "absent")]
     elif helper == "eapply_user":
@@ -190,6 +196,7 @@ def build_request(spec):
     pre = []  # entries put into the image before the session: ("file"|"dir", rel) / ("link", rel, rel target)
     cleanup = None  # shell command run between the request under test and the follow-ups
     fols = None  # follow-up requests replacing the plain one
+    eapi = "8"
     if h in IW:
         src, dest, rel = IW[h]
         mode = None
@@ -231,6 +238,11 @@ def build_request(spec):
         elif v == "unknown-option":
             args = ["-Z", src]
             expect = "any"
+        elif v in ("fallback-dir-first", "fallback-dir-last"):
+            dname = "d" if v == "fallback-dir-first" else "zd"  # destinations are installed in sorted order
+            args = [src, dname] if v == "fallback-dir-first" else [dname, src]
+            files.append((os.path.join(os.path.dirname(rel), dname), None, None))  # `install` cannot install a directory
+            expect = "fail"
         elif v == "recursive-obstructed":
             # a directory sits where a file of the tree has to go; afterwards the obstacle is removed and the same
             # recursive request, then one forced through the external install fallback, must work
@@ -330,9 +342,15 @@ def build_request(spec):
             effect = ("stdout", "cat/inst-2" if v in ("valid", "valid-r") else "")
             expect = "ok" if v in ("valid", "valid-r", "absent-pkg") else "fail"
     elif h == "unpack":
-        args = {"valid": ["a.tar"], "missing": ["nonexistent.tar"], "empty-file": ["empty.tar"], "unrecognized": ["plain.bin"], "corrupt": ["corrupt.tar"]}[v]
+        args = {
+            "valid": ["a.tar"], "missing": ["nonexistent.tar"], "empty-file": ["empty.tar"], "unrecognized": ["plain.bin"],
+            "corrupt": ["corrupt.tar"], "missing-nosuffix": ["missing.txt"], "empty-nosuffix": ["empty.txt"],
+            "absolute-eapi5": ["/abs/path.txt"], "absolute-tar-eapi5": ["/abs/path.tar"],
+        }[v]  # fmt: skip
         effect = ("workfile", "t/u", b"unpacked\n")
         expect = "ok" if v == "valid" else "fail"
+        if v.endswith("eapi5"):
+            eapi = "5"  # absolute paths are only allowed from EAPI 6 on
         if v == "unrecognized":
             effect, expect = ("none",), "ok"  # PMS: files of an unrecognised type are skipped, not an error
     elif h == "eapply":
@@ -353,7 +371,7 @@ def build_request(spec):
         expect = "ok" if v == "valid" else "fail"
     return {
         "cmd": h, "opts": " ".join(opts), "args": args, "env": env, "effect": effect, "expect": expect,
-        "pre": pre, "cleanup": cleanup, "fols": fols,
+        "pre": pre, "cleanup": cleanup, "fols": fols, "eapi": eapi,
     }  # fmt: skip
 
 
@@ -549,6 +567,7 @@ class World:
             self._w("src/" + n, FILE_DATA + n.encode())
         os.symlink("f.txt", os.path.join(self.tmpl, "src/lnk.txt"))
         os.symlink("x.html", os.path.join(self.tmpl, "src/lnk.html"))
+        self._w("src/zd/inner.txt", FILE_DATA + b"zinner")
         self._w("src/d/inner.txt", FILE_DATA + b"inner")
         self._w("src/d/inner.html", FILE_DATA + b"innerh")
         self._w("src/target.txt", b"line1\nline2\nline3\n")
@@ -566,6 +585,7 @@ class World:
         subprocess.run(["tar", "-cf", os.path.join(self.tmpl, "dist/a.tar"), "-C", os.path.join(self.tmpl, "tarsrc"), "t"], check=True)
         shutil.rmtree(os.path.join(self.tmpl, "tarsrc"))
         self._w("dist/empty.tar", b"")
+        self._w("dist/empty.txt", b"")
         self._w("dist/plain.bin", b"not an archive\n")
         self._w("dist/corrupt.tar", b"this is not a tar archive at all\n" * 40)
 
@@ -590,11 +610,11 @@ class World:
             else:
                 os.symlink(os.path.relpath(os.path.join(self.image, op[2]), os.path.dirname(p)), p)
 
-    def make_helpers(self):
+    def make_helpers(self, eapi="8"):
         from pkgcore.ebuild import ebd_ipc
         from pkgcore.test.misc import FakePkg, FakeRepo
 
-        pkg = FakePkg("cat/pkg-1", eapi="8", slot="0")
+        pkg = FakePkg("cat/pkg-1", eapi=eapi, slot="0")
 
         class Dom:
             all_installed_repos = FakeRepo((FakePkg("cat/inst-1"), FakePkg("cat/inst-2"), FakePkg("cat/other-3")))
@@ -626,8 +646,8 @@ def run_session(world, spec, timeout=None):
     from verif.engines import faults
 
     world.fresh()
-    op = world.make_helpers()
     req = build_request(spec)
+    op = world.make_helpers(req["eapi"])
     world.apply_pre(req["pre"])
     obs = {"replies": [], "events_at_reply": [], "outcome": None, "ipc_error": None, "req": req}
 
